@@ -20,6 +20,8 @@ Copy i uses two letters (p, q); the kinds of classes of a copy:
   variant W: C = Ev q Ps (even p-words, q, p-words) with Ps = Ev + Od, Od = p Ev in the outer pack and Ev verified by a strategy whose
              pack knows Ev only from the rules it is used in (a factory) and Ps = eps + p Ps: expanding Ev needs the reverse rule
              Ev = Ps - Od and gives Ps - a class of the original specification - another rule than it had
+  variant D: C = the Dyck words over (p, q): C = eps + N, N = p C q C - an algebraic class (no rational generating function), a product
+             with the same non-atom child twice
   variant Z: as Y, but the pack offered for C keeps its strategies in an expansion set (verification strategies first in pack order)
   variant S: C = (p|q)+ = X + swap(X): a union rule with the *same* child class twice, told apart by the child index only
 Root R = g + C1 + ... + Ck  (`g` a one-letter atom). Everything the oracle needs is generated directly from these
@@ -47,6 +49,23 @@ LETTERS = [("a", "b"), ("c", "d"), ("e", "f")]
 
 def _tails(p, q, n):
     return ("".join(t) for t in product((p, q), repeat=n)) if n >= 0 else iter(())
+
+
+def _dyck(p, q, n):
+    """the Dyck words of length n (p opens, q closes)"""
+    if n % 2:
+        return []
+    out = []
+    for t in product((p, q), repeat=n):
+        h = 0
+        for ch in t:
+            h += 1 if ch == p else -1
+            if h < 0:
+                break
+        else:
+            if h == 0:
+                out.append("".join(t))
+    return out
 
 
 def _words(name, n, sig):
@@ -85,6 +104,8 @@ def _words(name, n, sig):
         return [t for t in _tails(p, q, n) if q in t]
     if kind == "gPq":
         return ["g" + t for t in _words("Pq" + k, n - 1, sig)] if n >= 1 else []
+    if kind == "Nd":  # non-empty Dyck words: p D q D
+        return [w for w in _dyck(p, q, n) if w]
     if kind == "Ev":
         return [p * n] if n % 2 == 0 else []
     if kind == "Od":
@@ -104,6 +125,8 @@ def _words(name, n, sig):
             return [w[:i] + w[i].upper() + w[i + 1:] for w in _tails(p, q, n) for i in range(n)]
         if v == "W":
             return [p * (2 * i) + q + p * (n - 1 - 2 * i) for i in range(n) if n - 1 - 2 * i >= 0]
+        if v == "D":
+            return _dyck(p, q, n)
         if v == "Q":
             return _words("Aq" + k, n, sig) + _words("Y" + k, n, sig) + _words("gPq" + k, n, sig)
         if v == "S":
@@ -214,6 +237,13 @@ class GProd(_Table, CartesianProductStrategy):
             _, q = LETTERS[int(c.name[-1])]
             i = str(obj).rindex(q) + 1
             return (W(obj[:i]), W(obj[i:]))
+        if c.name.startswith("Nd"):  # p D q D: split at the first return to height 0
+            p_, _q = LETTERS[int(c.name[-1])]
+            h = 0
+            for i, ch in enumerate(str(obj)):
+                h += 1 if ch == p_ else -1
+                if h == 0:
+                    return (W(obj[0]), W(obj[1:i]), W(obj[i]), W(obj[i + 1:]))
         k = len(children if children is not None else self.decomposition_function(c))
         return tuple(W(obj[i:i + 1]) for i in range(k - 1)) + (W(obj[k - 1:]),)  # single letters, then the rest
 
@@ -383,6 +413,10 @@ def inner_pack(sig):
     for k, v in ((str(i), x) for i, x in enumerate(sig)):
         if v == "W":
             continue  # decomposed by the outer pack (w_tables)
+        if v == "D":  # Dyck words: C = eps + N, N = p C q C (an algebraic class; a product with the same non-atom child twice)
+            union["C" + k] = ("Eps" + k, "Nd" + k)
+            prod["Nd" + k] = ("Y" + k, "C" + k, "T" + k, "C" + k)
+            continue
         if v == "S":
             sym["C" + k] = ("X" + k,)
             continue
